@@ -164,7 +164,7 @@ class Visibility(Enum):
         """
         for k, v in cls.__members__.items():
             if v == name:
-                return k
+                return v
         return cls.from_alias(name)
 
 
@@ -197,4 +197,5 @@ class SensorModality(Enum):
         """
         for k, v in cls.__members__.items():
             if v == name:
-                return k
+                return v
+        raise ValueError(f"Unexpected value: {name}")
